@@ -131,7 +131,7 @@ func genOps(w *out.W, tier string) {
 		maxOps = 4
 	}
 	w.Exhaust = true
-	w.Rule = fmt.Sprintf("exhaustive: every sequence of 1..%d writer operations over an alphabet of %d (Planner.WritePlan with 0/1/2 formatted files incl. overwriting, sum-ignored and non-sql ones; Planner.WriteCheckpoint with/without tag over contents with/without leading comments; MemDir.CopyFiles sorted/unsorted/empty) from %d start directories (empty, valid, stale sum, no sum + foreign file, checkpoint present), on MemDir and (without CopyFiles) LocalDir; then seeded random sequences with adversarial names. After every operation: Files(), atlas.sum bytes, Validate. Non-trivial = every sequence (each operation rewrites atlas.sum); distinct by sequence", maxOps, len(alphabet), len(starts))
+	w.Rule = fmt.Sprintf("exhaustive: every sequence of 1..%d writer operations over an alphabet of %d (Planner.WritePlan with 0/1/2 formatted files incl. overwriting, sum-ignored and non-sql ones; Planner.WriteCheckpoint with/without tag over contents with/without leading comments; MemDir.CopyFiles sorted/unsorted/empty) from %d start directories (empty, valid, stale sum, no sum + foreign file, checkpoint present), on MemDir and (without CopyFiles; all sequences of <=3 ops, every 8th longer one) LocalDir; then seeded random sequences with adversarial names. After every operation: Files(), atlas.sum bytes, Validate. Non-trivial = every sequence (each operation rewrites atlas.sum); distinct by sequence", maxOps, len(alphabet), len(starts))
 	n := 0
 	run := func(start []kv, ops []opT) {
 		n++
@@ -201,7 +201,8 @@ func genOps(w *out.W, tier string) {
 				all = append(all, kv{o.n, ""})
 			}
 		}
-		if !hasCopy && fsSafe(all) {
+		// LocalDir is file I/O bound: every sequence of <=3 ops, every 8th of the longer ones
+		if !hasCopy && fsSafe(all) && (len(ops) <= 3 || n%8 == 0) {
 			ld, p := localDir(st)
 			lobs := runOn(ld, func() []kv { return nil })
 			os.RemoveAll(p)
